@@ -451,9 +451,10 @@ class Lark(Serialize, Generic[_Return_T]):
 
         # If the user asked to invert the priorities, negate them all here.
         if self.options.priority == 'invert':
-            for rule in self.rules:
-                if rule.options.priority is not None:
-                    rule.options.priority = -rule.options.priority
+            # The alternatives of a rule may share one RuleOptions object: negate each object only once
+            for rule_options in {id(rule.options): rule.options for rule in self.rules}.values():
+                if rule_options.priority is not None:
+                    rule_options.priority = -rule_options.priority
             for term in self.terminals:
                 term.priority = -term.priority
         # Else, if the user asked to disable priorities, strip them from the
